@@ -32,6 +32,7 @@ RULE = (
     "dict keys differing from the arrays' names) x (export: numpy dict, pandas dict, pickle, flow CSV, stock CSV "
     "with / without in- and outflow); to_dfs over a family of 24 definitions. Non-trivial = system with >= 1 flow "
     "or stock. Distinct by construction."
+    " Also: a text-typed dimension with number-like labels, a 40 x 30 x 30 system, the pickle export to a bare file name."
 )
 ASSUMPTIONS = [
     "values are dyadic numbers (exact through CSV text); names stay distinct after file-name sanitising (checked by the model as a precondition)",
